@@ -107,7 +107,7 @@ func (t *lbTransport) SendRequest(target string, req *protoCommonV1.TaskRequest)
 			defer t.wg.Done()
 			// "later" = after the search pipeline's completion callback (it removes the pipeline
 			// from the pipeline manager right after ctx.Complete)
-			for i := 0; i < 20000 && query.GetPipelineManager().GetPipeline(t.reqID) != nil; i++ {
+			for end := time.Now().Add(2 * time.Second); time.Now().Before(end) && query.GetPipelineManager().GetPipeline(t.reqID) != nil; {
 				time.Sleep(100 * time.Microsecond)
 			}
 			for _, tg := range order {
